@@ -1,5 +1,5 @@
 \* steady state, 2 clients x 2 rounds, one idle sweep, factory failures, Put(nil): every invariant, no cut; 56,503 distinct states
-\* (checks/C24.py generates the configurations it runs from the same templates; measured sizes in DESIGN.md 5/C24 and evidence/C24.json)
+\* (checks/C24.py generates the configurations it runs from the same templates; measured sizes are in evidence/C24.json)
 SPECIFICATION Spec
 CONSTANTS
   Clients = {"c1","c2"}
